@@ -258,3 +258,584 @@ Lemma dec_sel_info_ok n : n < 65536 ->
 Proof. intros H. cbn. f_equal. lia. Qed.
 
 Local Transparent N.mul N.add N.modulo N.div N.ltb N.leb.
+
+(* ---------------------------------------------------------------------------
+   get_sel_entry against the device: either no log change interferes and the record
+   comes back whole, or the adversary strikes and the loop ends with 0xC5 *)
+Section Inner.
+  Variables (resv rid nx : N) (rc : list N) (e_rc : selentry).
+  Hypothesis Hresv1 : 1 <= resv.
+  Hypothesis Hresv2 : resv < 65536.
+  Hypothesis Hrid : rid < 65536.
+  Hypothesis Hnx : nx < 65536.
+  Hypothesis Hlen : length rc = 16%nat.
+  Hypothesis Hdec : sel_entry_decode rc = Ok e_rc.
+
+  Definition ready (s : seldev) : Prop :=
+    sd_valid s = true /\ sd_resv s = resv /\ lookup (sd_log s) rid = Some (rc, nx) /\
+    limit_ok (sd_limit s).
+  Definition is_get (x : request * reply) : Prop :=
+    exists off ln, fst x = get_entry_req resv rid off ln.
+
+  Lemma ready_quiet s s' : ready s -> quiet s s' -> ready s'.
+  Proof.
+    unfold ready, quiet. intros (?&?&?&?) (?&?&?&?&?&?). repeat split; congruence.
+  Qed.
+
+  Lemma inner_loop : forall fuel s maxlen acc,
+    ready s ->
+    acc = firstn (length acc) rc -> (length acc < 16)%nat ->
+    ((maxlen = 0xff%Z /\ acc = []) \/
+     (sd_limit s <> 0xff /\ (Z.of_N (sd_limit s) <= maxlen)%Z /\ (maxlen <= 16)%Z)) ->
+    (Z.to_nat (if (maxlen =? 0xff)%Z then 18 else maxlen - Z.of_N (sd_limit s)) + (16 - length acc) + 1 <= fuel)%nat ->
+    exists out s' t,
+      exec (get_entry_loop fuel resv rid maxlen acc) sel_dev s = (out, s', t) /\ Forall is_get t /\
+      ((out = Ok (e_rc, nx) /\ quiet s s') \/
+       (out = Err (CCError 0xc5) /\ exists e, cancelled s s' e)).
+  Proof.
+    induction fuel as [|fuel IH]; intros s maxlen acc Hready Hacc Hk Hphase Hfuel; [lia|].
+    cbn [get_entry_loop].
+    set (off := len acc).
+    set (ln := if negb (maxlen =? 255)%Z && (16 <? Z.of_N off + maxlen)%Z
+               then (16 - Z.of_N off)%Z else maxlen).
+    rewrite exec_send. unfold sel_dev at 1.
+    assert (Hoff : off = N.of_nat (length acc)) by reflexivity.
+    destruct (hd None (sd_plan s)) as [e|] eqn:Hhd.
+    - (* the adversary appends e: reservation cancelled *)
+      pose proof (adversary_cancel s e Hhd) as Hc.
+      rewrite handle_get_cancelled; try assumption.
+      + cbn [dec_get_entry N.eqb Pos.eqb CC_CANT_RET negb].
+        unfold exec. cbn [run].
+        eexists _, _, _. split; [reflexivity|]. split.
+        * constructor; [|constructor]. exists off, ln. reflexivity.
+        * right. split; [reflexivity|]. exists e. exact Hc.
+      + destruct Hc as (_&_&Hv&_). exact Hv.
+      + destruct Hc as (Hl&_). rewrite Hl. destruct (sd_log s); discriminate.
+    - pose proof (adversary_quiet s Hhd) as Hq.
+      pose proof (ready_quiet _ _ Hready Hq) as Hr1.
+      set (s1 := adversary s) in *.
+      destruct Hr1 as (Hv1 & Hres1 & Hl1 & Hlim1).
+      assert (HL : sd_limit s1 = sd_limit s) by (destruct Hq as (_&?&_); assumption).
+      destruct Hphase as [[Hm Ha]|(HnL & HL1 & HL2)].
+      + (* first request: whole record *)
+        subst maxlen acc. cbn in off. subst off. cbn in ln. subst ln.
+        rewrite (handle_get s1 resv rid 0 255 rc nx) by (try assumption; lia).
+        cbn zeta. change (Z.to_N 255 =? 255) with true. cbn match.
+        destruct (N.eqb_spec (sd_limit s1) 255) as [HLw|HLp].
+        * (* served *)
+          change (16 <=? 0) with false. cbn match.
+          rewrite dec_get_entry_ok by assumption.
+          change (0 =? CC_CANT_RET) with false. cbn [negb N.eqb]. cbn match.
+          assert (Hs : [] ++ slice rc 0 (16 - 0) = rc).
+          { unfold slice. cbn. apply firstn_all2. lia. }
+          rewrite Hs. unfold len. rewrite Hlen. change (16 <=? N.of_nat 16) with true. cbn match.
+          rewrite Hdec. unfold exec. cbn [run].
+          eexists _, _, _. split; [reflexivity|]. split.
+          { constructor; [|constructor]. exists 0, 255%Z. reflexivity. }
+          left. split; [reflexivity | exact Hq].
+        * (* refused: continue with 16 *)
+          cbn [dec_get_entry N.eqb Pos.eqb CC_CANT_RET negb].
+          change (255 =? 255)%Z with true. cbn match.
+          destruct (IH s1 16%Z []) as (out & s' & t & He & Ht & Hres).
+          { repeat split; assumption. }
+          { reflexivity. }
+          { cbn. lia. }
+          { right. rewrite HL in *. destruct Hlim1 as [[? ?]|?]; [|contradiction]. repeat split; lia. }
+          { change (16 =? 255)%Z with false. cbn match. cbn [length]. rewrite HL.
+            change (255 =? 255)%Z with true in Hfuel. cbn match in Hfuel. cbn [length] in Hfuel.
+            destruct Hlim1 as [[? ?]|?]; [|contradiction]. lia. }
+          rewrite He. eexists _, _, _. split; [reflexivity|]. split.
+          { constructor; [|exact Ht]. exists 0, 255%Z. reflexivity. }
+          destruct Hres as [[Ho Hq2]|[Ho [e Hc]]].
+          { left. split; [exact Ho | eapply quiet_trans; eassumption]. }
+          { right. split; [exact Ho|]. exists e. eapply quiet_cancelled; eassumption. }
+      + (* partial reads *)
+        assert (Hmx : (maxlen =? 255)%Z = false) by lia.
+        assert (Hln : (ln = Z.min maxlen (16 - Z.of_N off) /\ 1 <= ln <= 16)%Z).
+        { subst ln. rewrite Hmx. cbn [negb andb]. destruct Hlim1 as [[? ?]|?]; [|congruence].
+          destruct (Z.ltb_spec 16 (Z.of_N off + maxlen)); lia. }
+        destruct Hln as [Hln1 Hln2].
+        rewrite (handle_get s1 resv rid off ln rc nx) by (try assumption; lia).
+        cbn zeta.
+        destruct (N.eqb_spec (Z.to_N ln) 255) as [?|_]; [lia|].
+        rewrite HL. destruct (N.eqb_spec (sd_limit s) 255) as [?|_]; [contradiction|]. cbn [negb andb].
+        destruct (N.ltb_spec (sd_limit s) (Z.to_N ln)) as [Hbig|Hfit].
+        * (* refused: one byte less *)
+          cbn [dec_get_entry N.eqb Pos.eqb CC_CANT_RET negb].
+          rewrite Hmx.
+          destruct (IH s1 (maxlen - 1)%Z acc) as (out & s' & t & He & Ht & Hres).
+          { repeat split; assumption. }
+          { exact Hacc. }
+          { exact Hk. }
+          { right. rewrite HL. repeat split; lia. }
+          { rewrite HL. rewrite Hmx in Hfuel.
+            destruct (Z.eqb_spec (maxlen - 1) 255); lia. }
+          rewrite He. eexists _, _, _. split; [reflexivity|]. split.
+          { constructor; [|exact Ht]. exists off, ln. reflexivity. }
+          destruct Hres as [[Ho Hq2]|[Ho [e Hc]]].
+          { left. split; [exact Ho | eapply quiet_trans; eassumption]. }
+          { right. split; [exact Ho|]. exists e. eapply quiet_cancelled; eassumption. }
+        * destruct (N.ltb_spec 16 (off + Z.to_N ln)) as [?|_]; [lia|].
+          rewrite dec_get_entry_ok by assumption.
+          change (0 =? CC_CANT_RET) with false. cbn [negb N.eqb]. cbn match.
+          assert (Hs : acc ++ slice rc off (Z.to_N ln) = firstn (length acc + Z.to_nat ln) rc).
+          { rewrite Hacc at 1. unfold slice. rewrite Hoff, Nat2N.id.
+            replace (N.to_nat (Z.to_N ln)) with (Z.to_nat ln) by lia. apply firstn_add. }
+          rewrite Hs.
+          assert (Hl2 : length (firstn (length acc + Z.to_nat ln) rc) = (length acc + Z.to_nat ln)%nat).
+          { rewrite firstn_length. lia. }
+          unfold len at 1. rewrite Hl2.
+          destruct (N.leb_spec 16 (N.of_nat (length acc + Z.to_nat ln))) as [Hdone|Hmore].
+          { (* record complete *)
+            replace (length acc + Z.to_nat ln)%nat with 16%nat by lia.
+            rewrite firstn_all2 by lia. rewrite Hdec. unfold exec. cbn [run].
+            eexists _, _, _. split; [reflexivity|]. split.
+            { constructor; [|constructor]. exists off, ln. reflexivity. }
+            left. split; [reflexivity | exact Hq]. }
+          { destruct (IH s1 maxlen (firstn (length acc + Z.to_nat ln) rc)) as (out & s' & t & He & Ht & Hres).
+            { repeat split; assumption. }
+            { rewrite Hl2. reflexivity. }
+            { rewrite Hl2. lia. }
+            { right. rewrite HL. repeat split; lia. }
+            { rewrite Hl2, HL. rewrite Hmx in *. lia. }
+            rewrite He. eexists _, _, _. split; [reflexivity|]. split.
+            { constructor; [|exact Ht]. exists off, ln. reflexivity. }
+            destruct Hres as [[Ho Hq2]|[Ho [e Hc]]].
+            { left. split; [exact Ho | eapply quiet_trans; eassumption]. }
+            { right. split; [exact Ho|]. exists e. eapply quiet_cancelled; eassumption. } }
+  Qed.
+
+  Lemma get_sel_entry_spec : forall fuel s, (40 <= fuel)%nat -> ready s ->
+    exists out s' t,
+      exec (get_sel_entry fuel rid resv) sel_dev s = (out, s', t) /\ Forall is_get t /\
+      ((out = Ok (e_rc, nx) /\ quiet s s') \/
+       (out = Err (CCError 0xc5) /\ exists e, cancelled s s' e)).
+  Proof.
+    intros fuel s Hf Hr. unfold get_sel_entry. apply inner_loop; try assumption.
+    - reflexivity.
+    - cbn. lia.
+    - left. split; reflexivity.
+    - cbn. lia.
+  Qed.
+End Inner.
+
+(* ---------------------------------------------------------------------------
+   sending one request *)
+Lemma exec_lift {A S} (dev : device S) (x : res A) s : exec (lift x) dev s = (x, s, []).
+Proof. destruct x; reflexivity. Qed.
+Lemma exec_send_msg {A S} (dev : device S) r (dec : list N -> res A) s s1 d :
+  dev s r = (s1, RBytes d) -> exec (send_msg r dec) dev s = (dec d, s1, [(r, RBytes d)]).
+Proof.
+  intros H. unfold send_msg. rewrite exec_send, H, exec_lift. reflexivity.
+Qed.
+
+Definition ids_ok (l : list (list N)) : Prop := Forall (fun r => rec_id r < 65536) l.
+Definition entry_of (r : list N) : selentry :=
+  match sel_entry_decode r with Ok e => e | Err _ => mkSelEntry r 0 0 0 0 0 0 0 0 0 [] end.
+Lemma entry_of_ok r : rec_ok r -> sel_entry_decode r = Ok (entry_of r) /\ se_data (entry_of r) = r.
+Proof.
+  intros H. destruct (rec_ok_decode r H) as [e [H1 H2]]. unfold entry_of. rewrite H1. auto.
+Qed.
+
+Lemma lookup_nx_lt log : ids_ok log -> forall rid rc nx, lookup log rid = Some (rc, nx) -> nx < 65536.
+Proof.
+  induction 1 as [|r rest Hr Hrest IH]; intros rid rc nx Hl; [discriminate|].
+  assert (Hn : next_of rest < 65536).
+  { destruct rest as [|r' rest']; cbn; [lia|]. inversion Hrest; assumption. }
+  cbn [lookup] in Hl.
+  destruct (rid =? 0); [injection Hl as <- <-; exact Hn|].
+  destruct (rid =? 0xffff).
+  - destruct rest; [injection Hl as <- <-; lia | eapply IH; eassumption].
+  - destruct (rec_id r =? rid); [injection Hl as <- <-; exact Hn | eapply IH; eassumption].
+Qed.
+
+Lemma lookup_mid : forall pre r post, rec_id r <> 0 -> rec_id r <> 0xffff ->
+  ~ In (rec_id r) (map rec_id pre) ->
+  lookup (pre ++ r :: post) (rec_id r) = Some (r, next_of post).
+Proof.
+  induction pre as [|x pre IH]; intros r post H0 Hf Hnin; cbn [app lookup].
+  - destruct (N.eqb_spec (rec_id r) 0); [contradiction|].
+    destruct (N.eqb_spec (rec_id r) 0xffff); [contradiction|].
+    now rewrite N.eqb_refl.
+  - destruct (N.eqb_spec (rec_id r) 0); [contradiction|].
+    destruct (N.eqb_spec (rec_id r) 0xffff); [contradiction|].
+    cbn in Hnin. destruct (N.eqb_spec (rec_id x) (rec_id r)); [tauto|].
+    apply IH; tauto.
+Qed.
+
+Lemma lookup_app : forall log rid rc nx adds, rid <> 0xffff ->
+  lookup log rid = Some (rc, nx) -> exists nx', lookup (log ++ adds) rid = Some (rc, nx').
+Proof.
+  induction log as [|r rest IH]; intros rid rc nx adds Hf Hl; [discriminate|].
+  cbn [app lookup] in *.
+  destruct (rid =? 0); [injection Hl as <- <-; eauto|].
+  destruct (N.eqb_spec rid 0xffff); [contradiction|].
+  destruct (rec_id r =? rid); [injection Hl as <- <-; eauto | eapply IH; eassumption].
+Qed.
+
+Lemma somes_nil_hd p : somes p = [] -> hd None p = None.
+Proof. destruct p as [|[x|] p]; cbn; [reflexivity | discriminate | reflexivity]. Qed.
+
+(* ---------------------------------------------------------------------------
+   get_sel_entries without concurrent changes *)
+Definition log_ok (log : list (list N)) : Prop :=
+  Forall rec_ok log /\ ids_ok log /\ NoDup (map rec_id log) /\
+  ~ In 0 (map rec_id log) /\ ~ In 0xffff (map rec_id log).
+
+Lemma entries_loop_spec : forall post fuel s pre r next resv acc,
+  sd_log s = pre ++ r :: post -> log_ok (sd_log s) ->
+  sd_valid s = true -> sd_resv s = resv -> 1 <= resv -> resv < 65536 ->
+  limit_ok (sd_limit s) -> somes (sd_plan s) = [] ->
+  ((next = 0 /\ pre = []) \/ next = rec_id r) ->
+  (length post < fuel)%nat ->
+  exists s' t, exec (entries_loop fuel 40 resv next acc) sel_dev s
+               = (Ok (acc ++ map entry_of (r :: post)), s', t) /\ quiet s s'.
+Proof.
+  induction post as [|r' post IH]; intros fuel s pre r next resv acc Hlog Hok Hv Hres Hr1 Hr2 Hlim Hpl Hnext Hfuel;
+    (destruct fuel as [|fuel]; [lia|]); cbn [entries_loop].
+  - (* last record *)
+    destruct Hok as (Hrec & Hids & Hnd & Hn0 & Hnf).
+    assert (Hrok : rec_ok r).
+    { rewrite Hlog in Hrec. apply Forall_app in Hrec as [_ Hrec]. inversion Hrec; assumption. }
+    destruct (entry_of_ok r Hrok) as [Hdec Hdat].
+    assert (Hlk : lookup (sd_log s) next = Some (r, 0xffff)).
+    { rewrite Hlog. destruct Hnext as [[-> ->]| ->]; [reflexivity|].
+      apply (lookup_mid pre r []).
+      - intros E. apply Hn0. rewrite Hlog, map_app. apply in_or_app. right. left. exact E.
+      - intros E. apply Hnf. rewrite Hlog, map_app. apply in_or_app. right. left. exact E.
+      - rewrite Hlog, map_app in Hnd. apply NoDup_remove_2 in Hnd. intros Hin. apply Hnd.
+        apply in_or_app. left. exact Hin. }
+    assert (Hnextlt : next < 65536).
+    { destruct Hnext as [[-> _]| ->]; [lia|].
+      rewrite Hlog in Hids. apply Forall_app in Hids as [_ Hids]. inversion Hids; assumption. }
+    destruct (get_sel_entry_spec resv next 0xffff r (entry_of r) Hr1 Hr2 Hnextlt ltac:(lia)
+                (proj1 Hrok) Hdec 40%nat s ltac:(lia)) as (out & s' & t & He & _ & Hres0).
+    { repeat split; assumption. }
+    destruct Hres0 as [[-> Hq]|[_ [e Hc]]].
+    + erewrite exec_bind_ok; [| exact He | cbn; reflexivity].
+      eexists _, _. split; [reflexivity | exact Hq].
+    + destruct Hc as (_&_&_&_&Hc). rewrite Hpl in Hc. discriminate.
+  - destruct Hok as (Hrec & Hids & Hnd & Hn0 & Hnf).
+    assert (Hrok : rec_ok r).
+    { rewrite Hlog in Hrec. apply Forall_app in Hrec as [_ Hrec]. inversion Hrec; assumption. }
+    destruct (entry_of_ok r Hrok) as [Hdec Hdat].
+    assert (Hlk : lookup (sd_log s) next = Some (r, rec_id r')).
+    { rewrite Hlog. destruct Hnext as [[-> ->]| ->]; [reflexivity|].
+      apply (lookup_mid pre r (r' :: post)).
+      - intros E. apply Hn0. rewrite Hlog, map_app. apply in_or_app. right. left. exact E.
+      - intros E. apply Hnf. rewrite Hlog, map_app. apply in_or_app. right. left. exact E.
+      - rewrite Hlog, map_app in Hnd. apply NoDup_remove_2 in Hnd. intros Hin. apply Hnd.
+        apply in_or_app. left. exact Hin. }
+    assert (Hnextlt : next < 65536).
+    { destruct Hnext as [[-> _]| ->]; [lia|].
+      rewrite Hlog in Hids. apply Forall_app in Hids as [_ Hids]. inversion Hids; assumption. }
+    assert (Hid' : rec_id r' < 65536 /\ rec_id r' <> 0xffff).
+    { split.
+      - rewrite Hlog in Hids. apply Forall_app in Hids as [_ Hids]. inversion Hids as [|? ? _ H2]; subst.
+        inversion H2; assumption.
+      - intros E. apply Hnf. rewrite Hlog, map_app. apply in_or_app. right. right. left. exact E. }
+    destruct Hid' as [Hid'1 Hid'2].
+    destruct (get_sel_entry_spec resv next (rec_id r') r (entry_of r) Hr1 Hr2 Hnextlt Hid'1
+                (proj1 Hrok) Hdec 40%nat s ltac:(lia)) as (out & s1 & t1 & He & _ & Hres0).
+    { repeat split; assumption. }
+    destruct Hres0 as [[-> Hq]|[_ [e Hc]]].
+    + destruct Hq as (Hq1 & Hq2 & Hq3 & Hq4 & Hq5 & Hq6).
+      destruct (IH fuel s1 (pre ++ [r]) r' (rec_id r') resv (acc ++ [entry_of r])) as (s' & t' & He' & Hq').
+      * rewrite Hq1, Hlog, <- app_assoc. reflexivity.
+      * rewrite Hq1. repeat split; assumption.
+      * congruence.
+      * congruence.
+      * assumption.
+      * assumption.
+      * congruence.
+      * congruence.
+      * right. reflexivity.
+      * cbn in Hfuel. lia.
+      * erewrite exec_bind_ok; [| exact He |].
+        2:{ cbn match. destruct (N.eqb_spec (rec_id r') 0xffff); [contradiction|]. exact He'. }
+        eexists _, _. split.
+        { rewrite <- app_assoc. reflexivity. }
+        eapply quiet_trans; [|exact Hq']. unfold quiet. auto 10.
+    + destruct Hc as (_&_&_&_&Hc). rewrite Hpl in Hc. discriminate.
+Qed.
+
+Lemma sel_dev_quiet s r : somes (sd_plan s) = [] ->
+  sel_dev s r = sel_handle (adversary s) r /\ quiet s (adversary s).
+Proof.
+  intros H. split; [reflexivity|]. apply adversary_quiet, somes_nil_hd, H.
+Qed.
+
+Lemma map_data_entry l : Forall rec_ok l -> map se_data (map entry_of l) = l.
+Proof.
+  induction 1 as [|r l Hr Hl IHl]; [reflexivity|].
+  cbn. rewrite IHl. f_equal. apply entry_of_ok, Hr.
+Qed.
+
+Lemma entries_exact : forall s fuel,
+  log_ok (sd_log s) -> limit_ok (sd_limit s) -> somes (sd_plan s) = [] ->
+  (length (sd_log s) <= fuel)%nat -> N.of_nat (length (sd_log s)) < 65536 ->
+  exists s' t, exec (get_sel_entries fuel 40) sel_dev s = (Ok (map entry_of (sd_log s)), s', t)
+    /\ map se_data (map entry_of (sd_log s)) = sd_log s
+    /\ sd_log s' = sd_log s /\ sd_deleted s' = sd_deleted s.
+Proof.
+  intros s fuel Hok Hlim Hpl Hfuel H64.
+  assert (Hdata : map se_data (map entry_of (sd_log s)) = sd_log s).
+  { apply map_data_entry. destruct Hok as (Hrec & _). exact Hrec. }
+  unfold get_sel_entries, get_sel_entries_count.
+  destruct (sel_dev_quiet s sel_info_req Hpl) as [Hd0 Hq0].
+  set (s0 := adversary s) in *.
+  rewrite handle_info in Hd0.
+  pose proof (exec_send_msg sel_dev _ dec_sel_info _ _ _ Hd0) as Hinfo.
+  assert (Hlog0 : sd_log s0 = sd_log s) by (destruct Hq0 as (?&_); assumption).
+  rewrite Hlog0 in Hinfo. rewrite dec_sel_info_ok in Hinfo by lia.
+  destruct (sd_log s) as [|r post] eqn:Hlog.
+  - (* empty log *)
+    erewrite exec_bind_ok; [| exact Hinfo | cbn; reflexivity].
+    eexists _, _. split; [reflexivity|]. split; [reflexivity|].
+    destruct Hq0 as (?&?&?&?&?&?). rewrite Hlog in *. split; congruence.
+  - assert (Hpl0 : somes (sd_plan s0) = []) by (destruct Hq0 as (_&_&_&_&_&E); congruence).
+    destruct (sel_dev_quiet s0 reserve_req Hpl0) as [Hd1 Hq1].
+    set (s1 := adversary s0) in *.
+    rewrite handle_reserve in Hd1.
+    set (R := sd_resv s1 mod 65535 + 1) in *.
+    assert (HR : 1 <= R /\ R < 65536) by (subst R; lia).
+    pose proof (exec_send_msg sel_dev _ dec_id16 _ _ _ Hd1) as Hres.
+    rewrite dec_id16_ok in Hres by lia.
+    set (s2 := mkSelDev (sd_log s1) (sd_limit s1) R true (sd_plan s1) (sd_deleted s1)) in *.
+    assert (Hlog2 : sd_log s2 = r :: post).
+    { subst s2. cbn. destruct Hq1 as (E&_). rewrite E, Hlog0. reflexivity. }
+    destruct (entries_loop_spec post fuel s2 [] r 0 R []) as (s' & t & He & Hq).
+    + exact Hlog2.
+    + rewrite Hlog2. exact Hok.
+    + reflexivity.
+    + reflexivity.
+    + lia.
+    + lia.
+    + subst s2. cbn. destruct Hq1 as (_&E&_). destruct Hq0 as (_&E0&_). rewrite E, E0. exact Hlim.
+    + subst s2. cbn. destruct Hq1 as (_&_&_&_&_&E). congruence.
+    + left. split; reflexivity.
+    + cbn in Hfuel. lia.
+    + erewrite exec_bind_ok; [| exact Hinfo |].
+      2:{ cbn [length]. destruct (N.eqb_spec (N.of_nat (S (length post))) 0); [lia|].
+          erewrite exec_bind_ok; [| exact Hres | exact He]. reflexivity. }
+      eexists _, _. split; [reflexivity|]. split; [exact Hdata|].
+      destruct Hq as (E1&_&_&_&E5&_). rewrite E1, E5. subst s2. cbn.
+      destruct Hq1 as (F1&_&_&_&F5&_). destruct Hq0 as (G1&_&_&_&G5&_). split; congruence.
+Qed.
+
+Lemma entries_empty : forall s fuel fi,
+  sd_log s = [] -> somes (sd_plan s) = [] ->
+  exists s', exec (get_sel_entries fuel fi) sel_dev s
+             = (Ok [], s', [(sel_info_req, RBytes [0; 0x51; 0; 0; 0; 0; 0; 0; 0; 0; 0; 0; 0; 0; 0x0a])])
+          /\ sd_log s' = [].
+Proof.
+  intros s fuel fi Hlog Hpl.
+  unfold get_sel_entries, get_sel_entries_count.
+  destruct (sel_dev_quiet s sel_info_req Hpl) as [Hd0 Hq0].
+  rewrite handle_info in Hd0.
+  assert (Hlog0 : sd_log (adversary s) = []) by (destruct Hq0 as (E&_); congruence).
+  rewrite Hlog0 in Hd0.
+  pose proof (exec_send_msg sel_dev _ dec_sel_info _ _ _ Hd0) as Hinfo.
+  erewrite exec_bind_ok; [| exact Hinfo | cbn; reflexivity].
+  eexists. split; [reflexivity | exact Hlog0].
+Qed.
+
+(* ---------------------------------------------------------------------------
+   get_and_clear_sel_entry under an arbitrary finite adversary plan *)
+Definition atomic_trace (rid : N) (rc : list N) (t : list (request * reply)) : Prop :=
+  exists t0 R gets,
+    t = t0 ++ (reserve_req, RBytes (0 :: le_bytes 2 R)) :: gets
+           ++ [(delete_req R rid, RBytes (0 :: le_bytes 2 (rec_id rc)))]
+    /\ Forall (is_get R rid) gets.
+
+Lemma atomic_trace_prefix rid rc p t : atomic_trace rid rc t -> atomic_trace rid rc (p ++ t).
+Proof.
+  intros (t0 & R & gets & -> & Hg). exists (p ++ t0), R, gets. split; [|exact Hg].
+  now rewrite <- app_assoc.
+Qed.
+
+Lemma adversary_step s : exists adds,
+  sd_log (adversary s) = sd_log s ++ adds /\ somes (sd_plan s) = adds ++ somes (sd_plan (adversary s))
+  /\ sd_limit (adversary s) = sd_limit s /\ sd_deleted (adversary s) = sd_deleted s
+  /\ sd_resv (adversary s) = sd_resv s.
+Proof.
+  destruct (hd None (sd_plan s)) as [e|] eqn:Hhd.
+  - destruct (adversary_cancel s e Hhd) as (H1&H2&H3&H4&H5). exists [e]. repeat split; try assumption.
+    unfold adversary. rewrite Hhd. reflexivity.
+  - destruct (adversary_quiet s Hhd) as (H1&H2&H3&H4&H5&H6). exists []. rewrite app_nil_r. cbn. auto 10.
+Qed.
+
+Lemma lookup_in : forall log rid rc nx, lookup log rid = Some (rc, nx) -> In rc log.
+Proof.
+  induction log as [|r rest IH]; intros rid rc nx Hl; [discriminate|].
+  cbn [lookup] in Hl.
+  destruct (rid =? 0); [injection Hl as <- _; now left|].
+  destruct (rid =? 0xffff).
+  - destruct rest; [injection Hl as <- _; now left | right; eapply IH; eassumption].
+  - destruct (rec_id r =? rid); [injection Hl as <- _; now left | right; eapply IH; eassumption].
+Qed.
+
+Lemma ids_ok_app a b : ids_ok (a ++ b) <-> ids_ok a /\ ids_ok b.
+Proof. apply Forall_app. Qed.
+
+Lemma gac_spec rid rc : rid < 65536 -> rid <> 0xffff -> rec_ok rc ->
+  forall fuel s nx,
+    lookup (sd_log s) rid = Some (rc, nx) -> limit_ok (sd_limit s) ->
+    ids_ok (sd_log s) -> ids_ok (somes (sd_plan s)) ->
+    (length (somes (sd_plan s)) < fuel)%nat ->
+    exists s' t adds,
+      exec (get_and_clear_sel_entry fuel 40 rid) sel_dev s = (Ok (entry_of rc), s', t)
+      /\ sd_deleted s' = sd_deleted s ++ [rc]
+      /\ sd_log s' = remove_rec (sd_log s ++ adds) rid
+      /\ somes (sd_plan s) = adds ++ somes (sd_plan s')
+      /\ atomic_trace rid rc t.
+Proof.
+  intros Hrid Hnf Hrok. destruct (entry_of_ok rc Hrok) as [Hdec _].
+  induction fuel as [|fuel IH]; intros s nx Hlk Hlim Hids Hpids Hfuel; [lia|].
+  (* restarting from a later state s_r whose log is the old one plus additions *)
+  assert (Hrestart : forall s_r addsA tp,
+             sd_log s_r = sd_log s ++ addsA -> somes (sd_plan s) = addsA ++ somes (sd_plan s_r) ->
+             sd_limit s_r = sd_limit s -> sd_deleted s_r = sd_deleted s -> addsA <> [] ->
+             exists s' t adds,
+               exec (get_and_clear_sel_entry fuel 40 rid) sel_dev s_r = (Ok (entry_of rc), s', t)
+               /\ sd_deleted s' = sd_deleted s ++ [rc]
+               /\ sd_log s' = remove_rec (sd_log s ++ adds) rid
+               /\ somes (sd_plan s) = adds ++ somes (sd_plan s')
+               /\ atomic_trace rid rc (tp ++ t)).
+  { intros s_r addsA tp HlogA HplA HlimA HdelA Hne.
+    destruct (lookup_app _ _ _ _ addsA Hnf Hlk) as [nx' Hlk'].
+    rewrite HplA in Hpids. apply ids_ok_app in Hpids as [HpA Hpr].
+    destruct (IH s_r nx') as (s' & t & adds & He & Hd & Hl & Hp & Ht).
+    - rewrite HlogA. exact Hlk'.
+    - rewrite HlimA. exact Hlim.
+    - rewrite HlogA. apply ids_ok_app. split; assumption.
+    - exact Hpr.
+    - rewrite HplA, app_length in Hfuel. destruct addsA; [contradiction|]. cbn in Hfuel. lia.
+    - exists s', t, (addsA ++ adds). split; [exact He|]. split; [congruence|]. split.
+      + rewrite Hl, HlogA, app_assoc. reflexivity.
+      + split; [rewrite HplA, Hp, app_assoc; reflexivity | apply atomic_trace_prefix, Ht]. }
+  cbn [get_and_clear_sel_entry].
+  (* 1. reserve *)
+  destruct (adversary_step s) as (adds0 & Hlog0 & Hpl0 & Hlim0 & Hdel0 & _).
+  set (s0 := adversary s) in *.
+  set (R := sd_resv s0 mod 65535 + 1).
+  assert (HR : 1 <= R /\ R < 65536) by (subst R; lia).
+  set (s1 := mkSelDev (sd_log s0) (sd_limit s0) R true (sd_plan s0) (sd_deleted s0)).
+  assert (Hd1 : sel_dev s reserve_req = (s1, RBytes (0 :: le_bytes 2 R))) by reflexivity.
+  pose proof (exec_send_msg sel_dev _ dec_id16 _ _ _ Hd1) as Hres.
+  rewrite dec_id16_ok in Hres by lia.
+  destruct (lookup_app _ _ _ _ adds0 Hnf Hlk) as [nx1 Hlk1]. rewrite <- Hlog0 in Hlk1.
+  pose proof Hpids as Hpids'. rewrite Hpl0 in Hpids'. apply ids_ok_app in Hpids' as [Hp0 Hpr0].
+  assert (Hids1 : ids_ok (sd_log s1)).
+  { subst s1. cbn. rewrite Hlog0. apply ids_ok_app. split; assumption. }
+  assert (Hnx1 : nx1 < 65536) by (eapply lookup_nx_lt; [exact Hids1 | exact Hlk1]).
+  assert (Hrcid : rec_id rc < 65536).
+  { unfold ids_ok in Hids1. rewrite Forall_forall in Hids1. apply Hids1. eapply lookup_in. exact Hlk1. }
+  (* 2. read *)
+  destruct (get_sel_entry_spec R rid nx1 rc (entry_of rc) (proj1 HR) (proj2 HR) Hrid Hnx1
+              (proj1 Hrok) Hdec 40%nat s1 ltac:(lia)) as (out & s2 & t2 & Hget & Hgets & Hcase).
+  { repeat split; try reflexivity; [exact Hlk1 | subst s1; cbn; rewrite Hlim0; exact Hlim]. }
+  destruct Hcase as [[-> Hq2]|[-> [e Hc2]]].
+  - (* read complete *)
+    pose proof (exec_on_cancel_ok _ _ _ _ _ _ Hget) as Hoc.
+    destruct Hq2 as (Q1&Q2&Q3&Q4&Q5&Q6).
+    subst s1. cbn [sd_log sd_limit sd_resv sd_valid sd_deleted sd_plan] in Q1, Q2, Q3, Q4, Q5, Q6.
+    (* 3. delete *)
+    destruct (hd None (sd_plan s2)) as [e|] eqn:Hhd.
+    + (* cancelled before the delete: both steps are repeated *)
+      destruct (adversary_cancel s2 e Hhd) as (C1&C2&C3&C4&C5).
+      set (s3 := adversary s2) in *.
+      assert (Hd3 : sel_dev s2 (delete_req R rid) = (s3, RBytes [0xc5])).
+      { unfold sel_dev. fold s3. apply handle_delete_cancelled; [exact C3 | lia]. }
+      pose proof (exec_send_msg sel_dev _ dec_id16 _ _ _ Hd3) as Hdel.
+      change (dec_id16 [0xc5]) with (@Err N (CCError 0xc5)) in Hdel.
+      pose proof (exec_on_cancel_c5 _ _ _ _ _ Hdel) as Hoc2.
+      destruct (Hrestart s3 (adds0 ++ [e])
+                  ((reserve_req, RBytes (0 :: le_bytes 2 R)) :: t2 ++ [(delete_req R rid, RBytes [0xc5])]))
+        as (s' & t & adds & He & Hd & Hl & Hp & Ht).
+      * rewrite C1, Q1, Hlog0, app_assoc. reflexivity.
+      * rewrite Hpl0, <- Q6, C5, <- app_assoc. reflexivity.
+      * congruence.
+      * congruence.
+      * destruct adds0; discriminate.
+      * exists s', (((reserve_req, RBytes (0 :: le_bytes 2 R)) :: t2 ++ [(delete_req R rid, RBytes [0xc5])]) ++ t), adds.
+        split; [|auto].
+        erewrite exec_bind_ok; [| exact Hres |].
+        2:{ erewrite exec_bind_ok; [| exact Hoc |].
+            2:{ cbn match. erewrite exec_bind_ok; [| exact Hoc2 |]. 2:{ cbn match. exact He. }
+                reflexivity. }
+            reflexivity. }
+        cbn [app]. rewrite <- !app_assoc. reflexivity.
+    + (* deleted under the reservation of the read *)
+      destruct (adversary_quiet s2 Hhd) as (D1&D2&D3&D4&D5&D6).
+      set (s3 := adversary s2) in *.
+      assert (Hd3 : sel_dev s2 (delete_req R rid) =
+                    (mkSelDev (remove_rec (sd_log s3) rid) (sd_limit s3) (sd_resv s3) false (sd_plan s3)
+                              (sd_deleted s3 ++ [rc]), RBytes (0 :: le_bytes 2 (rec_id rc)))).
+      { unfold sel_dev. fold s3. apply (handle_delete s3 R rid rc nx1); try lia; try congruence. }
+      pose proof (exec_send_msg sel_dev _ dec_id16 _ _ _ Hd3) as Hdel.
+      rewrite dec_id16_ok in Hdel by exact Hrcid.
+      pose proof (exec_on_cancel_ok _ _ _ _ _ _ Hdel) as Hoc2.
+      eexists _, _, adds0. split.
+      * erewrite exec_bind_ok; [| exact Hres |].
+        2:{ erewrite exec_bind_ok; [| exact Hoc |].
+            2:{ cbn match. erewrite exec_bind_ok; [| exact Hoc2 |]. 2:{ cbn match. reflexivity. }
+                reflexivity. }
+            reflexivity. }
+        reflexivity.
+      * cbn [sd_log sd_deleted sd_plan]. split; [congruence|]. split; [congruence|].
+        split; [rewrite Hpl0; congruence|].
+        exists [], R, t2. split; [|exact Hgets]. cbn [app]. rewrite ?app_nil_r. reflexivity.
+  - (* cancelled during the read: both steps are repeated *)
+    pose proof (exec_on_cancel_c5 _ _ _ _ _ Hget) as Hoc.
+    destruct Hc2 as (C1&C2&C3&C4&C5).
+    subst s1. cbn [sd_log sd_limit sd_resv sd_valid sd_deleted sd_plan] in C1, C2, C4, C5.
+    destruct (Hrestart s2 (adds0 ++ [e]) ((reserve_req, RBytes (0 :: le_bytes 2 R)) :: t2))
+      as (s' & t & adds & He & Hd & Hl & Hp & Ht).
+    + rewrite C1, Hlog0, app_assoc. reflexivity.
+    + rewrite Hpl0, C5, <- app_assoc. reflexivity.
+    + congruence.
+    + congruence.
+    + destruct adds0; discriminate.
+    + exists s', (((reserve_req, RBytes (0 :: le_bytes 2 R)) :: t2) ++ t), adds. split; [|auto].
+      erewrite exec_bind_ok; [| exact Hres |].
+      2:{ erewrite exec_bind_ok; [| exact Hoc |]. 2:{ cbn match. exact He. } reflexivity. }
+      cbn [app]. reflexivity.
+Qed.
+
+Lemma exec_eq {A S} (p : prog A) (dev : device S) s : run p dev s [] = exec p dev s.
+Proof. reflexivity. Qed.
+
+Lemma gac_atomic : forall rid rc s nx,
+  rid < 65536 -> rid <> 0xffff -> rec_ok rc ->
+  lookup (sd_log s) rid = Some (rc, nx) -> limit_ok (sd_limit s) ->
+  ids_ok (sd_log s) -> ids_ok (somes (sd_plan s)) ->
+  exists s' t adds,
+    run (get_and_clear_sel_entry (S (length (somes (sd_plan s)))) 40 rid) sel_dev s []
+      = (Ok (entry_of rc), s', t)
+    /\ se_data (entry_of rc) = rc
+    /\ sd_deleted s' = sd_deleted s ++ [rc]
+    /\ sd_log s' = remove_rec (sd_log s ++ adds) rid
+    /\ somes (sd_plan s) = adds ++ somes (sd_plan s')
+    /\ atomic_trace rid rc t.
+Proof.
+  intros rid rc s nx H1 H2 H3 H4 H5 H6 H7.
+  destruct (gac_spec rid rc H1 H2 H3 (S (length (somes (sd_plan s)))) s nx H4 H5 H6 H7 ltac:(lia))
+    as (s' & t & adds & He & Hd & Hl & Hp & Ht).
+  exists s', t, adds. split; [rewrite exec_eq; exact He|]. split; [exact (proj2 (entry_of_ok rc H3))|]. auto.
+Qed.
+
+Lemma entries_exact_run : forall s fuel,
+  log_ok (sd_log s) -> limit_ok (sd_limit s) -> somes (sd_plan s) = [] ->
+  (length (sd_log s) <= fuel)%nat -> N.of_nat (length (sd_log s)) < 65536 ->
+  exists s' t, run (get_sel_entries fuel 40) sel_dev s [] = (Ok (map entry_of (sd_log s)), s', t)
+    /\ map se_data (map entry_of (sd_log s)) = sd_log s
+    /\ sd_log s' = sd_log s /\ sd_deleted s' = sd_deleted s.
+Proof. intros s fuel. rewrite exec_eq. exact (entries_exact s fuel). Qed.
+
+Lemma entries_empty_run : forall s fuel fi,
+  sd_log s = [] -> somes (sd_plan s) = [] ->
+  exists s', run (get_sel_entries fuel fi) sel_dev s []
+             = (Ok [], s', [(sel_info_req, RBytes [0; 0x51; 0; 0; 0; 0; 0; 0; 0; 0; 0; 0; 0; 0; 0x0a])])
+          /\ sd_log s' = [].
+Proof. intros s fuel fi. rewrite exec_eq. exact (entries_empty s fuel fi). Qed.
